@@ -7,6 +7,8 @@ EXTENDS Integers, Sequences, TLC, Json, IOUtils
 CONSTANTS Slack10,        \* scheduling allowance for real-time bounds (tenths of a second)
           TolImapLoss,    \* known finding F4: an ordered imap is never told about a lost worker
           TolSendFailSlot, \* known finding F1b: the slot of a job that could not be sent is not returned
+          TolLateReadySlot, \* known finding F15: the slot of a job whose result arrives after the job left the table
+                            \* (here: discarded while running) is never given back
           TolDiscardCredit \* known finding F7: the result of a discarded job is credited to nobody, its worker
                            \* waits out the 30 s consumption guard before it exits to be recycled
 VARIABLES tid
@@ -45,6 +47,7 @@ SendFailResolves == Is("sendfail") => (o.bad_outcome = "exc" /\ o.error_callback
 SendFailSlot == Is("sendfail") => (o.slots_free = o.slots \/ TolSendFailSlot)
 (* C10: the slot of a job that was timed out comes back when its worker has been replaced *)
 HardSlotBack == Is("hard") => o.slots_free = o.slots
+DiscardSlotBack == (Is("discard") /\ sc.putlocks) => (o.slots_free = o.slots \/ TolLateReadySlot)
 (* C09 *)
 RecycleHarmless == Is("recycle") =>
     (o.outcome = "ok" /\ o.items /\ o.max_per_worker <= o.quota /\ o.max_per_worker >= 1 /\ o.secs10 < 50 + Slack10)
